@@ -189,7 +189,7 @@ def walk_code(node):
 class XpTranslator(base.FnTranslator):
     def __init__(self, fn, lean_name, spec, ret, externs=None, nested=None, module=None):
         """ret: result type (plain, tuple or Union); externs: {python name: (module, attribute, lean effect, arg types, result type)};
-        nested: {python name of a nested function: (lean suffix, spec, ret)}"""
+        nested: {python name of a nested function: (lean suffix, parameter types by position, ret)}"""
         super().__init__(fn, lean_name, spec)
         self.ret = ret
         self.externs = externs or {}
@@ -220,10 +220,10 @@ class XpTranslator(base.FnTranslator):
     def literal(self, e, env):
         if isinstance(e, ast.Constant) and e.value is None:
             return B("()", "none", True)
-        if isinstance(e, ast.Tuple) and e.elts:
+        if isinstance(e, (ast.Tuple, ast.List)) and e.elts:
             lits = [self.literal(x, env) for x in e.elts]
             if all(l is not None and not is_list(l.ty) and l.ty != "none" for l in lits) and len({l.ty for l in lits}) == 1:
-                # a homogeneous tuple display of literals is used as an immutable sequence
+                # a homogeneous tuple / list display of literals is a constant sequence (lists are values: no aliasing)
                 return B("[" + ", ".join(l.text for l in lits) + "]", t_list(lits[0].ty), True)
             return None
         if isinstance(e, ast.Name) and e.id in env and env[e.id].const and is_list(env[e.id].ty) and env[e.id].text != "[]":
@@ -245,6 +245,10 @@ class XpTranslator(base.FnTranslator):
                 return lit.text, lit.ty
             parts = [self.expr(x, env) for x in e.elts]
             return "(" + ", ".join(t for t, _ in parts) + ")", ("tuple", [ty for _, ty in parts])
+        if isinstance(e, ast.List) and e.elts:
+            lit = self.literal(e, env)
+            if lit is not None:
+                return lit.text, lit.ty
         if isinstance(e, ast.ListComp):
             return self.listcomp(e, env)
         if isinstance(e, ast.BinOp) and isinstance(e.op, ast.Add):
@@ -518,6 +522,12 @@ class XpTranslator(base.FnTranslator):
             env2, lets = self.assign_value(name, "(%s ++ %s)" % (b.text, t), b.ty, env)
             eff = self.take()
             return self.wrap(eff, "\n".join(lets + [self.block(rest, env2, k)]))
+        if isinstance(s, ast.AugAssign) and isinstance(s.op, ast.Add) and isinstance(s.target, ast.Name) and s.target.id in env \
+                and is_list(env[s.target.id].ty) and not isinstance(s.value, ast.List):
+            # `lst += e` for a list value is `lst.extend(e)`
+            call = ast.Expr(value=ast.Call(func=ast.Attribute(value=ast.Name(id=s.target.id, ctx=ast.Load(), lineno=s.lineno), attr="extend", ctx=ast.Load(), lineno=s.lineno),
+                                           args=[s.value], keywords=[], lineno=s.lineno), lineno=s.lineno)
+            return self.block([call] + rest, env, k)
         if isinstance(s, ast.Return):
             text = self.ret_text(s, env)
             eff = self.take()
@@ -631,7 +641,10 @@ class XpTranslator(base.FnTranslator):
             raise TranslateError("line %d: nested function %s is not covered by the specialisation" % (s.lineno, s.name))
         if s.decorator_list:
             raise TranslateError("line %d: decorated nested function" % s.lineno)
-        suffix, spec, ret = self.nested_specs[s.name]
+        suffix, ptys, ret = self.nested_specs[s.name]
+        if len(ptys) != len(s.args.args):
+            raise TranslateError("line %d: nested function %s has %d parameter(s), the specialisation %d" % (s.lineno, s.name, len(s.args.args), len(ptys)))
+        spec = {a.arg: t for a, t in zip(s.args.args, ptys)}
         bound = {a.arg for a in s.args.args}
         for n in ast.walk(s):
             if isinstance(n, ast.Name) and isinstance(n.ctx, ast.Store):
@@ -865,6 +878,8 @@ class XpTranslator(base.FnTranslator):
             want = self.spec.get(p.arg)
             if want is None:
                 raise TranslateError("%s: parameter %r is not covered by the specialisation" % (fn.name, p.arg))
+            if isinstance(want, tuple) and want[0] == "list" and not isinstance(want[1], base.Cell):
+                want = t_list(want[1])
             name = "a%d" % len(params)
             params.append((name, want))
             self.legend[name] = p.arg
@@ -1020,7 +1035,7 @@ def unquoteE (s : Str) : Except PyErr Str :=
 # (source file, python function, lean name, parameter types, result type, externs, nested functions)
 SPECS = [
     (SRC_EVAL, "n0eval", "n0eval", {"_str": "str"}, EVAL_RES, {},
-     {"my_split": ("mySplit", {"_str": "str", "_delimiter": "str"}, t_list("str"))}),
+     {"my_split": ("mySplit", ["str", "str"], t_list("str"))}),
     (SRC_SPLIT, "split_name_index", "splitNameIndex", {"node_name": "str"}, ("tuple", ["str", IDX]),
      {"urllib__parse__unquote": ("urllib.parse", "unquote", "unquoteE", ["str"], "str")}, {}),
 ]
@@ -1083,11 +1098,328 @@ def restore_baseline():
     return False
 
 
+
+# ----------------------------------------------------------------------------------------------
+# self-test of the constructs this translator adds: small functions are translated, evaluated by Lean (`#eval`) and
+# compared with CPython on the same arguments (development tool, `--selftest`)
+# ----------------------------------------------------------------------------------------------
+SELFTEST_SRC = r"""
+from urllib.parse import unquote as uq
+
+def t_comp(s, d):
+    return [(d if d != '+' and i else "") + p.strip() for i, p in enumerate(s.split(d)) if p.strip()]
+
+def t_comp2(s):
+    return [x.lower() + '.' for x in s.split(',')]
+
+def t_comp3(s, t):
+    return [c + c for c in s if c not in t if c != 'z']
+
+def t_unpack(s, d):
+    a, b = s.split(d, 1)
+    return b, a.strip()
+
+def t_forelse(s, ops):
+    for op in ops:
+        if op in s:
+            k, v = s.split(op, 1)
+            if op == '=':
+                op = '=='
+            break
+    else:
+        raise SyntaxError("no operator")
+    return k + '<' + op + '>' + v
+
+def t_try(items):
+    total = 0
+    for it in items:
+        if it == "stop":
+            return "stopped"
+        if it == "last()":
+            it = -1
+        else:
+            try:
+                if '.' in it:
+                    it = float(it)
+                else:
+                    it = int(it)
+            except Exception:
+                return "bad"
+        total += it
+    return total
+
+def t_slice(s, a, b):
+    return s[a:b] + '|' + s[1:-1] + '|' + s[:b] + '|' + s[a:] + '|' + s[2:-1].strip()
+
+def t_none(s):
+    r = None
+    if s.startswith('x') and s.endswith('y'):
+        r = (s[1:], len(s))
+    else:
+        q = None
+    return s.lower(), (r if r is not None else q)
+
+def t_chain(s):
+    return s[3:-1].strip().split('(', 1)[1].split(',', 1)
+
+def t_nested(s):
+    def pieces(text, sep):
+        return [sep + p for p in text.split(sep) if p]
+    out = []
+    seps = ("+", "-", "2")
+    for sep in seps:
+        got = pieces(s, sep)
+        out.extend(got)
+    return out
+
+def t_join(s):
+    flag: bool = False
+    v = s.strip()
+    if v.lower() == "true()":
+        flag = True
+    elif v.startswith("'") and v.endswith("'"):
+        v = v[1:-1]
+        v = uq(v)
+    n = 0
+    if flag:
+        n = 1
+        v = v + '!'
+    return v, n
+
+def t_brk(items, stop):
+    seen = []
+    where = -1
+    for i, it in enumerate(items):
+        if it == stop:
+            where = i
+            break
+        if not it:
+            continue
+        seen.append(it.replace(" ", ""))
+    else:
+        seen.append("<end>")
+    return seen, where
+"""
+
+ST_IS = Union("IS", [("int", "IS.int"), ("str", "IS.str")])
+ST_OPT = Union("OptP", [("none", "OptP.none"), (("tuple", ["str", "int"]), "OptP.some")])
+SELFTEST_CASES = [
+    ("t_comp", {"s": "str", "d": "str"}, t_list("str"), [("1+2+ 3", "+"), ("a- b -c", "-"), (" - 1", "-"), ("", "+"), ("abc", ""), ("a::b:: ::c", "::"), ("\t1 - \x1f", "-")]),
+    ("t_comp2", {"s": "str"}, t_list("str"), [("A,b,,C d",), ("",), (",",)]),
+    ("t_comp3", {"s": "str", "t": "str"}, t_list("str"), [("abzcd", "b"), ("", "x"), ("zzz", ""), ("abc", "abc")]),
+    ("t_unpack", {"s": "str", "d": "str"}, ("tuple", ["str", "str"]), [("a[b[c", "["), ("abc", "["), ("abc", ""), (" k == v", "=="), ("==", "=="), ("a=", "=")]),
+    ("t_forelse", {"s": "str", "ops": ("list", "str")}, "str", [("a!=b", ["==", "!=", "="]), ("a=b=c", ["==", "!=", "="]), ("ab", ["==", "="]), ("a==b", []), ("a~b", ["~", "="]), ("x", ["", "="])]),
+    ("t_try", {"items": ("list", "str")}, ST_IS, [(["1", "2", " 3 "],), (["1", "stop", "x"],), (["1", "x", "stop"],), ([],), (["-4", "last()", "+1_0"],), (["1.x"],), (["1", "1.5"],), (["1__0"],)]),
+    ("t_slice", {"s": "str", "a": "int", "b": "int"}, "str", [("abcdef", 1, 4), ("abcdef", -3, -1), ("abcdef", 4, 2), ("abcdef", -10, 10), ("", 0, 0), ("ab", 1, -1), ("a b c ", 0, -2), ("abcdef", 8, -1)]),
+    ("t_none", {"s": "str"}, ("tuple", ["str", ST_OPT]), [("xAy",), ("xA",), ("",), ("xy",)]),
+    ("t_chain", {"s": "str"}, t_list("str"), [("fn (a,b,c))",), ("fn a,b)",), ("fn (ab)",), ("",), ("abc( x ,)",)]),
+    ("t_nested", {"s": "str"}, t_list("str"), [("1+2-3",), ("",), ("+-",)]),
+    ("t_join", {"s": "str"}, ("tuple", ["str", "int"]), [(" True() ",), ("'ab'",), ("'",), ("x",), ("'a%41'",), ("''",)]),
+    ("t_brk", {"items": ("list", "str"), "stop": "str"}, ("tuple", [t_list("str"), "int"]), [(["a b", "", "c", "S", "d"], "S"), (["a", "b"], "S"), ([], "S"), (["S"], "S")]),
+]
+SELFTEST_EXTERNS = {"t_join": {"uq": ("urllib.parse", "unquote", "unquoteE", ["str"], "str")}}
+SELFTEST_NESTED = {"t_nested": {"pieces": ("pieces", ["str", "str"], t_list("str"))}}
+
+
+def _enc(v):
+    if v is None:
+        return "N"
+    if isinstance(v, bool):
+        return "B%d" % v
+    if isinstance(v, int):
+        return "I%d" % v
+    if isinstance(v, str):
+        return "S" + ".".join(str(ord(c)) for c in v)
+    if isinstance(v, list):
+        return "L[" + " ".join(_enc(x) for x in v) + "]"
+    if isinstance(v, tuple):
+        return "T(" + " ".join(_enc(x) for x in v) + ")"
+    raise ValueError(v)
+
+
+def _lean_arg(v):
+    if isinstance(v, str):
+        return lean_str(v)
+    if isinstance(v, int):
+        return "(%d : Int)" % v if v >= 0 else "(-%d : Int)" % -v
+    if isinstance(v, list):
+        return "([" + ", ".join(_lean_arg(x) for x in v) + "] : List Str)"
+    raise ValueError(v)
+
+
+SELFTEST_ENC = """
+inductive IS | int (i : Int) | str (s : Str)
+inductive OptP | none | some (a : Str) (b : Int)
+class Enc (α : Type) where enc : α → String
+def encS (s : Str) : String := "S" ++ String.intercalate "." (s.map (fun c => toString c.toNat))
+instance : Enc Str := ⟨encS⟩
+instance : Enc Int := ⟨fun i => "I" ++ toString i⟩
+instance {α : Type} [Enc α] : Enc (List α) := ⟨fun l => "L[" ++ String.intercalate " " (l.map Enc.enc) ++ "]"⟩
+instance {α β : Type} [Enc α] [Enc β] : Enc (α × β) := ⟨fun p => "T(" ++ Enc.enc p.1 ++ " " ++ Enc.enc p.2 ++ ")"⟩
+instance : Enc IS := ⟨fun | .int i => Enc.enc i | .str s => Enc.enc s⟩
+instance : Enc OptP := ⟨fun | .none => "N" | .some a b => Enc.enc (a, b)⟩
+def showR {α : Type} [Enc α] : Except PyErr α → String
+  | .ok v => "ok " ++ Enc.enc v
+  | .error e => "err " ++ e.name
+"""
+
+
+def selftest():
+    import subprocess
+    import tempfile
+
+    tree = ast.parse(SELFTEST_SRC)
+    ns = {}
+    exec(compile(tree, "<selftest>", "exec"), ns)
+    parts = [PRELUDE.replace("N0.Gen.XPathPrim", "N0.Gen.XpSelfTest"), SELFTEST_ENC]
+    expected = []
+    for name, spec, ret, cases in SELFTEST_CASES:
+        tr_ = XpTranslator(base.find_function(tree, name), name, spec, ret, SELFTEST_EXTERNS.get(name), SELFTEST_NESTED.get(name), module=tree)
+        parts.append(tr_.translate() + "\n")
+        for args in cases:
+            try:
+                want = "ok " + _enc(ns[name](*args))
+            except Exception as e:  # noqa
+                want = "err " + type(e).__name__
+            expected.append((name, args, want))
+            parts.append("#eval showR (%s %s)" % (name, " ".join(_lean_arg(a) for a in args)))
+    parts.append("end N0.Gen.XpSelfTest\n")
+    with tempfile.NamedTemporaryFile("w", suffix=".lean", delete=False, encoding="utf-8") as f:
+        f.write("\n".join(parts))
+        path = f.name
+    p = subprocess.run(["lake", "env", "lean", path], cwd=os.path.join(HERE, "lean"), stdout=subprocess.PIPE, stderr=subprocess.STDOUT, text=True)
+    got = [l.strip().strip('"') for l in p.stdout.split("\n") if l.strip().startswith('"')]
+    if p.returncode != 0 or len(got) != len(expected):
+        print(p.stdout[-3000:])
+        print("selftest: Lean did not evaluate the translated functions (%d answers for %d cases); file %s" % (len(got), len(expected), path))
+        return 1
+    bad = skipped = 0
+    for (name, args, want), g in zip(expected, got):
+        if g == "err Unsupported":
+            skipped += 1  # outside the modelled scope (float text, '%' in unquote)
+        elif want != g:
+            bad += 1
+            print("selftest MISMATCH %s%r: python %s, lean %s" % (name, args, want, g))
+    print("selftest: %d cases, %d mismatches, %d outside the modelled scope (translated text: %s)" % (len(expected), bad, skipped, path))
+    return 1 if bad else 0
+
+
+# ----------------------------------------------------------------------------------------------
+# development tool: harmless refactorings of the two functions must still translate, and the equality theorems must
+# still hold for the regenerated text (`--refactorings [repo]`; rewrites and restores Gen/XPathPrim.lean)
+# ----------------------------------------------------------------------------------------------
+REFACTORINGS = {
+    "rename-locals": [("node_index_str", "idx_text"), ("node_index_tuple", "cond"), ("node_index_part1", "fn_arg"), ("node_index_part2", "needle"),
+                      ("expected_node_name", "lhs"), ("expected_value_bool", "as_bool"), ("expected_value", "rhs"), ("delimiters", "table"),
+                      ("first_split", "plus_parts"), ("second_split", "terms"), ("itm", "piece"), ("_delimiter", "sep"), ("result", "acc"),
+                      ("for item in", "for term in"), ("item ==", "term =="), ("item = ", "term = "), ("in item:", "in term:"), ("(item)", "(term)"),
+                      ("(item,", "(term,"), ("+= item", "+= term"), ("items", "pieces")],
+    "swap-independent-assignments": [
+        ("        node_name = node_name.strip()\n        node_index_str = node_index_str.strip()\n", "        node_index_str = node_index_str.strip()\n        node_name = node_name.strip()\n"),
+        ("                        expected_node_name = expected_node_name.strip()\n                        expected_value = expected_value.strip()\n",
+         "                        expected_value = expected_value.strip()\n                        expected_node_name = expected_node_name.strip()\n"),
+        ("    first_split = my_split(_str, '+')\n    second_split = []\n", "    second_split = []\n    first_split = my_split(_str, '+')\n")],
+    "elif-to-else-if": [
+        ("                elif expected_value.lower() == \"false()\":\n                    expected_value_bool = False\n                elif (expected_value.startswith",
+         "                else:\n                  if expected_value.lower() == \"false()\":\n                    expected_value_bool = False\n                  elif (expected_value.startswith")],
+    "if-if-to-elif": [("                        if delimiter == '~':\n", "                        elif delimiter == '~':\n")],
+    "no-extend-local": [("        items = my_split(item, '-')\n        second_split.extend(items)\n", "        second_split.extend(my_split(item, '-'))\n")],
+    "plus-equals-lists": [("        second_split.extend(items)\n", "        second_split += items\n")],
+    "last-as-else-if": [("        if item == \"last()\":\n            item = -1\n        else:\n            try:", "        if item == \"last()\":\n            item = 0 - 1\n        else:\n            try:")],
+    "result-plus": [("        result += item\n", "        result = result + item\n")],
+    "strip-once-in-comprehension": [("    _str = _str.replace(\" \",\"\").lower()\n", "    _str = _str.replace(\" \",\"\")\n    _str = _str.lower()\n")],
+    "split-unpack-via-local": [("        node_name, node_index_str = node_name[:-1].split('[', 1)\n", "        inner = node_name[:-1]\n        node_name, node_index_str = inner.split('[', 1)\n")],
+    "not-none-test-flipped": [("(node_index_tuple if node_index_tuple is not None else node_index_str)", "(node_index_str if node_index_tuple is None else node_index_tuple)")],
+    "bool-local-instead-of-none": [("expected_value if expected_value_bool is None else expected_value_bool)", "expected_value_bool if expected_value_bool is not None else expected_value)")],
+    "truthiness-style": [("        if node_index_str:\n", "        if len(node_index_str) != 0:\n"), ("    if not _str:\n", "    if _str == \"\":\n")],
+    "early-return-instead-of-else": [("    else:\n        node_index_str = None\n    return node_name,", "    else:\n        return node_name, None\n    return node_name,")],
+    "table-as-list": [("delimiters = (\"==\",\"!=\",\"~~\",\"!~\",\"~\",\"=\")", "delimiters = [\"==\", \"!=\", \"~~\", \"!~\", \"~\", \"=\"]")],
+}
+
+
+def apply_edits(srcs, pairs):
+    out = dict(srcs)
+    for a, b in pairs:
+        hit = False
+        for rel in out:
+            if a in out[rel]:
+                out[rel] = out[rel].replace(a, b)
+                hit = True
+        if not hit:
+            return None, a
+    return out, None
+
+
+def lake_props():
+    import subprocess
+
+    p = subprocess.run(["lake", "build", "N0Verif.Props.C01"], cwd=os.path.join(HERE, "lean"), stdout=subprocess.PIPE, stderr=subprocess.STDOUT, text=True)
+    errs = [l[:160] for l in p.stdout.split("\n") if l.startswith("error: N0Verif")]
+    return p.returncode, errs
+
+
+def refactorings(repo):
+    srcs = read_sources(repo)
+    base_text, _ = translate_sources(srcs)
+    worst = 0
+    try:
+        for name, pairs in REFACTORINGS.items():
+            if name == "rename-locals":
+                # only inside the two functions (the files define other functions using the same words)
+                new = dict(srcs)
+                for rel, fn in ((SRC_EVAL, "n0eval"), (SRC_SPLIT, "split_name_index")):
+                    text = new[rel]
+                    i = text.index("def %s(" % fn)
+                    j = text.index("\n# ***", i)
+                    body = text[i:j]
+                    for a, b in pairs:
+                        body = body.replace(a, b)
+                    new[rel] = text[:i] + body + text[j:]
+                missing = None
+            else:
+                new, missing = apply_edits(srcs, pairs)
+            if new is None:
+                print("%-32s does not apply to this source (%r not found)" % (name, missing[:50]))
+                worst = 1
+                continue
+            for rel in new:
+                try:
+                    compile(new[rel], rel, "exec")
+                except SyntaxError as e:
+                    print("%-32s the refactored source does not compile: %s" % (name, e))
+                    new = None
+                    break
+            if new is None:
+                worst = 1
+                continue
+            try:
+                lean, _ = translate_sources(new)
+            except TranslateError as e:
+                print("%-32s TranslateError: %s" % (name, e))
+                worst = 1
+                continue
+            if lean == base_text:
+                print("%-32s identical Lean text" % name)
+                continue
+            base.write_if_changed(OUT, lean)
+            rc, errs = lake_props()
+            print("%-32s text differs; equality theorems %s %s" % (name, "hold" if rc == 0 else "FAIL", errs[:2]))
+            worst = worst or (1 if rc else 0)
+    finally:
+        base.write_if_changed(OUT, base_text)
+        lake_props()
+    return worst
+
+
 if __name__ == "__main__":
     import sys
 
+    if "--selftest" in sys.argv:
+        sys.exit(selftest())
     args = [a for a in sys.argv[1:] if not a.startswith("--")]
     repo = args[0] if args else os.environ.get("VERIF_REPO", "/repo")
+    if "--refactorings" in sys.argv:
+        sys.exit(refactorings(repo))
     legend, changed, differs = regenerate(repo)
     if "--write-baseline" in sys.argv:
         os.makedirs(os.path.dirname(BASELINE), exist_ok=True)
